@@ -120,7 +120,7 @@ class EnvProblem(Problem):
         if self.numberOfConstraints and getattr(functionValue, "type", None) == FunctionType.CONSTRAINT:
             # a Problem with constraints dispatches on the holder's type; this solver only ever asks for the objective,
             # so a holder re-typed on the way here gets the constraint's value and the oracles see the difference
-            v = 7.25 + 0.125 * functionValue.functionID
+            v = 7.25
         if self.fresh_holder:
             from iOpt.trial import FunctionValue
             out = FunctionValue(functionValue.type, functionValue.functionID)
